@@ -1,7 +1,7 @@
 (* C04 -- property theorems only. `_refuted` theorems are facts about the faithful model of the CURRENT code
    (the correspondence check replays their witnesses on the implementation); see known_findings.json. *)
 From Coq Require Import ZArith List Bool.
-From WNTRV Require Import Lib.Sched C04.Proofs C04.AtTime C04.RuleGe.
+From WNTRV Require Import Lib.Sched C04.Proofs C04.AtTime C04.RuleGe C04.Prio.
 Import ListNotations.
 Local Open Scope Z_scope.
 
@@ -79,6 +79,14 @@ Proof. intros. apply at_time_silent_otherwise; assumption. Qed.
 Theorem C04_clock_control_daily_refuted :
   first_closed (run (mk [{| c_cond := CClock Req 21600 true 0; c_prio := 3; c_act := (0%nat, false) |}] [])) = Some 43200.
 Proof. vm_compute. reflexivity. Qed.
+(* two AT TIME controls on one link at the same instant with different priorities, in either registration order, from any state of the run:
+   after the step that contains the instant the link has the command of the HIGHER priority *)
+Theorem C04_priority_wins_one_step : forall thr hs rs sc D l vlo vhi st0 plo phi lo_first prev t ri st,
+  0 < rs -> plo < phi -> 0 < hs -> prev < thr <= t -> 0 <= thr -> 0 <= ri -> (l < length st)%nat ->
+  exists t1 ri1, one_step (g3 thr hs rs sc D l vlo vhi st0 plo phi lo_first) (false, prev, t, ri, st) =
+      Some ((t1, set_nth st l vhi), (false, t1, t1 + hs - (t1 + hs) mod hs, ri1, set_nth st l vhi))
+    /\ nth l (set_nth st l vhi) (negb vhi) = vhi.
+Proof. intros. apply priority_wins_one_step; assumption. Qed.
 (* a rule IF SYSTEM TIME >= thr (thr > 0), for EVERY threshold, grid and duration: it acts at J * rule_step, the first multiple of the
    rule step that is >= thr (J = ceil(thr / rule_step)); a step is solved there -- also inside a hydraulic step --, nothing changes before
    and the value is kept after *)
@@ -101,6 +109,7 @@ Print Assumptions C04_clock_eq_daily_refuted.
 Print Assumptions C04_last_applied_wins.
 Print Assumptions C04_at_time_control_exact.
 Print Assumptions C04_rule_ge_acts_at_first_instant.
+Print Assumptions C04_priority_wins_one_step.
 Print Assumptions C04_at_time_fires_exactly.
 Print Assumptions C04_at_time_silent_otherwise.
 Print Assumptions C04_clock_control_daily_refuted.
